@@ -1086,7 +1086,9 @@ def run_processor(ctx, hist, labels):
         kept = {t: v for t, v in dist.items() if ps is None or ps(pcvl.BasicState(list(t)))}
         tot = sum(kept.values())
         if tot <= 1e-12:
-            return {}
+            # the selection keeps an event of probability zero: the renormalised distribution is undefined (the
+            # implementation renormalises whatever rounding residue it holds, e.g. 1e-33 -> 1.0)
+            return None if kept else {}
         return {t: v / tot for t, v in kept.items()}
 
     try:
@@ -1163,6 +1165,9 @@ def run_processor(ctx, hist, labels):
         if nmut and any(pp.key != "H" for row in rows for pp in row):
             nontrivial = True
         pexp = post({tuple(e[0]): un_p2(e[1]) for e in out[2]}, bool(out[1]), ps)
+        if pexp is None:
+            count("selection-of-a-zero-probability-event-skipped")
+            continue
         if res[0] != "ok":
             fails.append(("processor:probs-exception-" + res[0], f"step {idx}: probs() raised {res[0]}: {res[1]}", str({k: round(v, 6) for k, v in pexp.items() if v > 1e-9})[:300], res[0], idx))
             continue
@@ -1173,7 +1178,7 @@ def run_processor(ctx, hist, labels):
         # the simulator-level answer for the same circuit and input, post-processed the same way, decides the signature
         try:
             circ = build(Node(m, None, None, items=its, kind="sub").source())
-            sim_d = post({tuple(k): float(v) for k, v in SimulatorFactory.build(circ).probs(st).items()}, filt <= st.n, ps)
+            sim_d = post({tuple(k): float(v) for k, v in SimulatorFactory.build(circ).probs(st).items()}, filt <= st.n, ps) or {}
             sim_ok = all(abs(sim_d.get(u, 0.0) - pexp.get(u, 0.0)) <= 1e-6 for u in set(sim_d) | set(pexp))
         except Exception:
             sim_ok = False
